@@ -33,7 +33,7 @@ def gen_cases(rng, tier, driver, corr, stats, families):
                 base.append((fam, v, gen.patterned(rng, klen), gen.patterned(rng, 16), rnd(rng, alen), rnd(rng, plen)))
     cts = model_encrypt(driver, base)
     for (fam, v, k, n, ad, pt), ct in zip(base, cts):
-        entry = [fam] if fam != "AE" else ["AE", "AEM", "AEC", "AI"]
+        entry = [fam, fam, fam + "C"] if fam != "AE" else ["AE", "AEM", "AEC", "AI"]      # SIVC / ISAPC: through the C++ classes
 
         def emit(kind, k2, n2, ad2, ct2):
             e = rng.choice(entry)
@@ -49,9 +49,17 @@ def gen_cases(rng, tier, driver, corr, stats, families):
             else:
                 if e == "AI":
                     e = "AE"
-                extra = (" ctor BA" if rng.random() < 0.5 else " setkey PTR") if e == "AEC" else ""
+                extra = (" ctor BA" if rng.random() < 0.5 else " setkey PTR") if e == "AEC" else (rng.choice([" ctor", " setkey"]) if e in ("SIVC", "ISAPC") else "")
                 corr.one("%s %s DEC %s %s %s %s%s" % (e, v, hx(k2), hx(n2), hx(ad2), hx(ct2), extra), "%s-%s-DEC-%s" % (e, v, kind))
 
+        if fam == "ISAP":
+            # the same key after save_key / load_key (a pre-computed key object reloaded into a second object) must still accept the
+            # unmodified ciphertext and reject a forgery; IK ops as in C06
+            bad = flip(ct, rng.randrange(len(ct) * 8))
+            corr.session(["IK 1 %s INIT %s" % (v, hx(k)), "IK 1 RELOAD 2", "IK 2 DEC %s %s %s" % (hx(n), hx(ad), hx(ct)),
+                          "IK 2 DEC %s %s %s" % (hx(n), hx(ad), hx(bad)), "IK 1 DEC %s %s %s" % (hx(n), hx(ad), hx(ct)), "IK 2 SAVE", "IK 1 FREE", "IK 2 FREE"],
+                         "IK-%s-DEC-reloaded" % v)
+            stats["kinds"]["isap-reloaded-key"] = stats["kinds"].get("isap-reloaded-key", 0) + 1
         thin = 1 if (tier == "thorough" or fam != "ISAP") else 4   # quick tier: every 4th nonce/key bit for ISAP (rotating start)
         off = rng.randrange(thin)
         emit("valid", k, n, ad, ct)
@@ -132,14 +140,19 @@ def run(res, tier, seed, replay=None):
         gen_cases(rng, tier, driver, corr, stats, families)
     configs = ["default", "c32"] if tier == "quick" else ["default", "c64", "c32", "directxor", "generic"]
     # the masked entry points (AEM lines) have share-count-specific code: other (key, data, max) share builds as well
-    configs += [("c64", (3, 3, 3))] if tier == "quick" else [("c64", (3, 3, 3)), ("c32", (4, 1, 4)), ("default", (3, 2, 3)), ("c64", (4, 4, 4))]
+    # (one data share = the masked entry points call the plain block helpers: its own code in each ascon-aead-masked-*.c)
+    configs += [("c64", (3, 3, 3)), ("default", (4, 1, 4))] if tier == "quick" else [("c64", (3, 3, 3)), ("c32", (4, 1, 4)), ("default", (4, 1, 4)), ("default", (3, 2, 3)), ("c64", (4, 4, 4))]
+    corr_m = diffrun.Corr()                                   # only the masked entry points: what the extra share builds are run on
+    for (a, b_), tg in zip(corr.sessions, corr.tags):
+        if corr.lines[a].startswith("AEM "):
+            corr_m.session(corr.lines[a:b_], tg)
     per = []
     with common.Scratch() as sc:
         b = stdflow.Builds(res, sc)
         for cfg in configs:
             got = b.get(*cfg) if isinstance(cfg, tuple) else b.get(cfg)
             if got:
-                per.append(diffrun.compare(res, corr, driver, got[1], got[2]))
+                per.append(diffrun.compare(res, corr_m if (isinstance(cfg, tuple) and not replay and corr_m.lines) else corr, driver, got[1], got[2]))
                 if tier == "thorough" and not replay and got[2] in ("default", "c32"):
                     # lengths of 2^32 bytes and more: size_t parameters must not be processed modulo 2^32 (harness/x_huge.c)
                     res.cov.setdefault("huge_lengths", {})[got[2]] = common.run_huge(res, got[0], got[2], ["isap-ad", "siv128"] if got[2] == "default" else ["isap-ad", "siv128"][:1])
